@@ -17,10 +17,10 @@ ENGINE = 'cv-sched'
 BUDGET_S = {'quick': 150, 'thorough': 1500}
 CASE_TIMEOUT_S = 600
 STUBS = ['pathos ParallelPool -> SimPool (pickle isolation, PRNG order, worker exception -> None)',
-         'cli.common.signal -> FakeSignal (never fires in this engine)']
+         'cli.common.signal -> FakeSignal (fires only in the threads-under-timeout executions)']
 PROBES = ['corpus_case', 'batch_with_skipped_tx', 'last_batch_partial', 'threads_gt_1', 'multi_file', 'idx_used',
           'index_dir_used', 'foreign_index_refused', 'index_dir_updated_pool', 'cache_evicting', 'tx_with_fusion_and_circ', 'noncanonical_only',
-          'ref_nonempty', 'shadow_hashseed_compared', 'real_pool_calibrated']
+          'ref_nonempty', 'shadow_hashseed_compared', 'real_pool_calibrated', 'threads_under_timeout']
 RULE = ('case = generated reference (3-9 genes) + SNV/INDEL/fusion/circRNA/alt-splicing records; one reference '
         'execution (threads=1, one GVF per kind, no idx, raw reference) and 3-5 perturbed executions drawing '
         'threads 1..8 through SimPool, a random partition/order of records into files, idx subset, index dir, '
@@ -48,6 +48,11 @@ def tasks(seed, tier, n):
             ts.append({'case': i, 'mode': 'shadow', 'hclass': (i + 1 + (i // 4) % 3) % 4})
     # stub calibration against the real pathos pool (informational, DESIGN 3.2): 1 input on every quick run,
     # 4 on a thorough run
+    # schedule independence under one and the same fault sequence: a sixth of the cases is additionally run with a
+    # virtual-alarm plan (engine cv-timeout's generator) under --threads 1 and --threads k
+    for i in range(n):
+        if i % 6 == 3:
+            ts.append({'case': i, 'mode': 'tthreads', 'hclass': i % 4})
     calib = [{'case': j * 5 + 2, 'mode': 'calib', 'hclass': j % 4} for j in range(1 if tier == 'quick' else 4)]
     return calib + ts
 
@@ -198,7 +203,64 @@ def make_violation(seed, task, case, p, clause, detail):
 REF_SCHED = {'pool_seed': 0, 'salt': 0}
 
 
+def timeout_threads(case, wd, plan, threads, sched):
+    """The same alarm plan under --threads 1 and --threads k.  Returns (detail or None, info)."""
+    from sim.engines import cv_timeout
+    t1 = cv_timeout.execute(case, wd, 't1', 1, {'salt': sched.get('salt', 0), 'pool_seed': 0}, alarm_plan=plan)
+    tk = cv_timeout.execute(case, wd, 'tk', threads, sched, alarm_plan=plan)
+    info = {'fired_1': len(t1.alarm_fired), 'fired_k': len(tk.alarm_fired), 'ok': (t1.ok, tk.ok)}
+    if t1.wall_capped or tk.wall_capped or not t1.alarm_fired:
+        return None, info
+    if t1.ok != tk.ok:
+        # one completes, the other aborts (ladder exhausted in one schedule only)
+        return {'perturbed_raised': tk.exc or t1.exc, 'ok_threads1': t1.ok, 'ok_threadsk': tk.ok,
+                'tb': ((tk.exc_tb or t1.exc_tb) or '')[-600:]}, info
+    if not t1.ok:
+        return None, info
+    a, b = set(t1.fasta), set(tk.fasta)
+    if a != b:
+        return {'n_ref': len(a), 'n_pert': len(b), 'lost': sorted(a - b)[:5], 'gained': sorted(b - a)[:5],
+                'n_lost': len(a - b), 'n_gained': len(b - a),
+                'fired': [(f['tx'], f['attempt'], f['site']) for f in t1.alarm_fired]}, info
+    return None, info
+
+
+def run_tthreads(seed, task, tier):
+    from sim.engines import cv_timeout
+    idx = task['case']
+    case, rng = cv_timeout.gen(seed, idx)
+    case['config']['skip_failed'] = False
+    out = {'executions': 0, 'signatures': [], 'violations': [], 'probes': {}, 'faults': {}}
+    threads = rng.choice([2, 3, 4])
+    sched = {'pool_seed': rng.getrandbits(32), 'salt': 0}
+    with cvcase.Scratch('c06t_') as wd:
+        m = cv_timeout.execute(case, wd, 'm', 1, {'salt': 0}, count_attempts=True,
+                               line_cap=cv_timeout.LINE_CAP['quick'])
+        out['executions'] += 1
+        if m.step_capped or not m.ok or not m.attempt_lines:
+            out['invalid'] = True
+            return out
+        for pl in range(2):
+            prng = R.case_rng(seed, ENGINE, idx, f'tplan{pl}')
+            plan = cv_timeout.plan_alarms(prng, m, len(case['config']['max_variants_per_node']))
+            d, info = timeout_threads(case, wd, plan, threads, sched)
+            out['executions'] += 2
+            if info['fired_1']:
+                out['probes']['threads_under_timeout'] = out['probes'].get('threads_under_timeout', 0) + 1
+                out['faults']['virtual_alarm'] = out['faults'].get('virtual_alarm', 0) + info['fired_1']
+            if d is not None:
+                rep = {'property': PROPERTY, 'engine': ENGINE, 'clause': 'threads-under-timeout',
+                       'signature': viol_signature('threads-under-timeout', d), 'detail': d, 'seed': seed,
+                       'case': idx, 'hclass': task['hclass'], 'hashseed': driver.HASH_CLASSES[task['hclass']],
+                       'case_data': case, 'plan': plan, 'threads': threads, 'sched': sched}
+                rep['digest'] = R.digest([seed, idx, 'tthreads', plan])
+                out['violations'].append(rep)
+    return out
+
+
 def run_case(seed, task, tier):
+    if task['mode'] == 'tthreads':
+        return run_tthreads(seed, task, tier)
     idx = task['case']
     case, perts = gen(seed, idx)
     out = {'executions': 0, 'signatures': [], 'violations': [], 'probes': {}, 'faults': {}}
@@ -354,6 +416,10 @@ def ref_digest_only(path):
 
 def replay(rep):
     case = rep['case_data']
+    if rep['clause'] == 'threads-under-timeout':
+        with cvcase.Scratch('c06tr_') as wd:
+            d, _ = timeout_threads(case, wd, rep['plan'], rep['threads'], rep['sched'])
+        return [dict(rep, detail=d, signature=viol_signature(rep['clause'], d))] if d is not None else []
     if rep['clause'] == 'hashseed':
         tmp = Path(os.environ.get('VERIF_SCRATCH') or '/tmp') / f"c06h_{os.getpid()}.json"
         tmp.write_text(json.dumps(rep))
@@ -384,6 +450,18 @@ def replay(rep):
 
 
 def shrink_candidates(rep):
+    if rep['clause'] == 'threads-under-timeout':
+        case, plan = rep['case_data'], rep['plan']
+        if len(plan) > 1:
+            for k in sorted(plan):
+                yield dict(rep, plan={q: v for q, v in plan.items() if q != k})
+        for is_circ, key in ((False, 'var_lines'), (True, 'circ_lines')):
+            for i in range(len(case[key]) - 1, -1, -1):
+                new_case, _ = cvcase.drop_line(case, [], is_circ, i)
+                yield dict(rep, case_data=new_case)
+        if rep['threads'] > 2:
+            yield dict(rep, threads=2)
+        return
     if rep['clause'] == 'hashseed':
         case = rep['case_data']
         for is_circ, key in ((False, 'var_lines'), (True, 'circ_lines')):
